@@ -67,7 +67,8 @@ type Case struct {
 	Params [3]uint32 `json:"params"`
 	Ops    []Op      `json:"ops"`
 	Engine string    `json:"engine"`
-	Alloc  string    `json:"alloc"` // default | guard | guard-moving
+	Alloc  string    `json:"alloc"`         // default | guard | guard-moving
+	Mem    string    `json:"mem,omitempty"` // "" = the module defines its memory | "imported" = another instance ("owner") defines it
 }
 
 // ---------------- reference model ----------------
@@ -248,7 +249,7 @@ func (m *model) exec(ops []Op) bool {
 				m.mem[d+uint64(i)] = tmp[i]
 			}
 			m.prog++
-		case "grow", "hostgrow":
+		case "grow", "hostgrow", "callgrow":
 			pages := m.size / 65536
 			if (pages+uint64(op.N))*65536 <= m.max {
 				m.size += uint64(op.N) * 65536
@@ -373,7 +374,7 @@ func tname(t64 bool) string {
 	return "i32"
 }
 
-func emit(b *wasmenc.B, ops []Op, depth int, fNoop, fHost uint32) {
+func emit(b *wasmenc.B, ops []Op, depth int, fNoop, fHost, fGrow uint32) {
 	for i := range ops {
 		op := &ops[i]
 		switch op.Kind {
@@ -484,33 +485,53 @@ func emit(b *wasmenc.B, ops []Op, depth int, fNoop, fHost uint32) {
 			foldTop(b)
 		case "hostgrow":
 			b.I32Const(int32(op.N)).Call(fHost)
+		case "callgrow":
+			b.I32Const(int32(op.N)).Call(fGrow)
 		case "call":
 			b.Call(fNoop)
 		case "block":
 			b.Block()
-			emit(b, op.Body, depth+1, fNoop, fHost)
+			emit(b, op.Body, depth+1, fNoop, fHost, fGrow)
 			b.End()
 		case "loop":
 			c := uint32(localLoopC + depth)
 			b.I32Const(2).LocalSet(c)
 			b.Loop()
-			emit(b, op.Body, depth+1, fNoop, fHost)
+			emit(b, op.Body, depth+1, fNoop, fHost, fGrow)
 			b.LocalGet(c).I32Const(1).Raw(wasmenc.OpI32Sub).LocalTee(c).BrIf(0)
 			b.End()
 		case "if":
 			b.LocalGet(uint32(op.Param)).If()
-			emit(b, op.Body, depth+1, fNoop, fHost)
+			emit(b, op.Body, depth+1, fNoop, fHost, fGrow)
 			b.End()
 		}
 	}
 }
 
+// buildOwner is the instance that defines the memory in "imported" mode.
+func buildOwner(c *Case) []byte {
+	m := &wasmenc.Module{}
+	m.Mems = [][]byte{wasmenc.Limits(c.Pages, c.Max, false)}
+	m.Exports = append(m.Exports, wasmenc.Export{Name: "memory", Kind: wasmenc.KMem, Idx: 0})
+	m.ExportFunc("grow", m.AddFunc([]byte{wasmenc.I32}, nil, nil, wasmenc.NewB().LocalGet(0).MemoryGrow().Drop().Bytes()))
+	return m.Encode()
+}
+
 func build(c *Case) []byte {
 	m := &wasmenc.Module{}
 	fHost := m.ImportFunc("env", "hgrow", []byte{wasmenc.I32}, nil)
+	var fGrow uint32
+	growBody := wasmenc.NewB().LocalGet(0).MemoryGrow().Drop().Bytes()
+	if c.Mem == "imported" {
+		// callgrow crosses into the instance that owns the memory
+		fGrow = m.ImportFunc("owner", "grow", []byte{wasmenc.I32}, nil)
+		m.Imports = append(m.Imports, wasmenc.Import{Mod: "owner", Name: "memory", Kind: wasmenc.KMem, Desc: wasmenc.Limits(c.Pages, c.Max, false)})
+	} else {
+		fGrow = m.AddFunc([]byte{wasmenc.I32}, nil, nil, growBody)
+	}
 	fNoop := m.AddFunc(nil, nil, nil, wasmenc.NewB().Nop().Bytes())
 	b := wasmenc.NewB()
-	emit(b, c.Ops, 0, fNoop, fHost)
+	emit(b, c.Ops, 0, fNoop, fHost, fGrow)
 	b.LocalGet(localAcc)
 	locals := []byte{wasmenc.I64, wasmenc.I32, wasmenc.I32, wasmenc.I32, wasmenc.I32, wasmenc.I64}
 	for i := 0; i < 11; i++ {
@@ -519,7 +540,9 @@ func build(c *Case) []byte {
 	locals = append(locals, wasmenc.V128)
 	run := m.AddFunc([]byte{wasmenc.I32, wasmenc.I32, wasmenc.I32}, []byte{wasmenc.I64}, locals, b.Bytes())
 	m.ExportFunc("run", run)
-	m.Mems = [][]byte{wasmenc.Limits(c.Pages, c.Max, false)}
+	if c.Mem != "imported" {
+		m.Mems = [][]byte{wasmenc.Limits(c.Pages, c.Max, false)}
+	}
 	m.Exports = append(m.Exports, wasmenc.Export{Name: "memory", Kind: wasmenc.KMem, Idx: 0}, wasmenc.Export{Name: "prog", Kind: wasmenc.KGlobal, Idx: 0})
 	m.Globals = []wasmenc.Global{{Type: wasmenc.I32, Mut: true, Init: wasmenc.NewB().I32Const(0).Bytes()}}
 	return m.Encode()
@@ -556,6 +579,11 @@ func RunCase(c *Case) string {
 	}), []api.ValueType{api.ValueTypeI32}, nil).Export("hgrow").Instantiate(ictx)
 	if err != nil {
 		return "harness: " + err.Error()
+	}
+	if c.Mem == "imported" {
+		if _, err := rt.InstantiateWithConfig(ictx, buildOwner(c), wazero.NewModuleConfig().WithName("owner")); err != nil {
+			return "harness: owner module rejected: " + err.Error()
+		}
 	}
 	mod, err := rt.InstantiateWithConfig(ictx, build(c), wazero.NewModuleConfig().WithName(""))
 	if err != nil {
@@ -842,7 +870,7 @@ func (g *gen) ops(n, depth int) []Op {
 			n := pick(t, "n", []uint32{0, 1, 7, 64, 4096})
 			op = Op{Kind: "copy", N: n, Base: g.baseFor(target(t, g.md.size, int(n)), 0), Base2: g.baseFor(target(t, g.md.size, int(n)), 0)}
 		case k < 91:
-			op = Op{Kind: pick(t, "gk", []string{"grow", "hostgrow"}), N: uint32(rapid.IntRange(0, 2).Draw(t, "gd"))}
+			op = Op{Kind: pick(t, "gk", []string{"grow", "hostgrow", "callgrow"}), N: uint32(rapid.IntRange(0, 2).Draw(t, "gd"))}
 		case k < 94:
 			op = Op{Kind: "call"}
 		default:
@@ -857,12 +885,12 @@ func (g *gen) ops(n, depth int) []Op {
 			out = append(out, op)
 			continue
 		}
-		if op.Kind != "setlocal" && op.Kind != "grow" && op.Kind != "hostgrow" && op.Kind != "call" {
+		if op.Kind != "setlocal" && op.Kind != "grow" && op.Kind != "hostgrow" && op.Kind != "callgrow" && op.Kind != "call" {
 			g.nacc++
 			g.smallOff(&op)
 		}
 		// keep the tracking model in step (only sizes and locals matter for steering)
-		if op.Kind == "setlocal" || op.Kind == "grow" || op.Kind == "hostgrow" {
+		if op.Kind == "setlocal" || op.Kind == "grow" || op.Kind == "hostgrow" || op.Kind == "callgrow" {
 			g.md.exec([]Op{op})
 		}
 		out = append(out, op)
@@ -905,7 +933,11 @@ func (g *gen) reusePattern() []Op {
 	default:
 		out = append(out, first)
 	}
-	switch uni(t, 7, "rmid") {
+	switch uni(t, 8, "rmid") {
+	case 7:
+		mid := Op{Kind: "callgrow", N: uint32(uni(t, 2, "gd"))}
+		g.md.exec([]Op{mid})
+		out = append(out, mid)
 	case 5: // a control-flow merge without any access or call on its paths
 		out = append(out, Op{Kind: "if", Param: rapid.IntRange(0, 2).Draw(t, "cp"), Body: []Op{{Kind: "setlocal", Local: (k + 1) % 4, Base: Base{Kind: "const", C: 7}}}})
 		g.md.exec(out[len(out)-1:])
@@ -945,6 +977,9 @@ func prop(t *rapid.T) {
 		if c.Max > 65536 {
 			c.Max = 65536
 		}
+	}
+	if uni(t, 4, "memkind") == 3 {
+		c.Mem = "imported"
 	}
 	c.Alloc = pick(t, "alloc", []string{"default", "guard", "guard", "guard-moving"})
 	if big && c.Alloc != "guard" {
@@ -996,6 +1031,12 @@ func prop(t *rapid.T) {
 		nt = nt || len(md.eas) > 0
 	}
 	lbl := []string{"engine:" + c.Engine, "alloc:" + c.Alloc}
+	if c.Mem == "imported" {
+		lbl = append(lbl, "imported-memory")
+	}
+	if strings.Contains(flat, "callgrow") {
+		lbl = append(lbl, "grow-in-callee")
+	}
 	if big {
 		lbl = append(lbl, "big-memory")
 	}
